@@ -37,8 +37,13 @@ func c20GenKill(rt *rapid.T) c20Case {
 	}
 	c.KillAt = rapid.IntRange(0, n-1).Draw(rt, "killAt")
 	// 0–3 ms after the announced start; small offsets are drawn more often because a small store
-	// lasts only tens of microseconds
-	c.KillUs = rapid.OneOf(rapid.IntRange(0, 60), rapid.IntRange(0, 400), rapid.IntRange(0, 3000)).Draw(rt, "killUs")
+	// lasts only 50–200 µs. A multi-megabyte store lasts 3–20 ms here (measured), so for those cases
+	// the range is widened to 25 ms to reach the end of the write and the rename as well.
+	offs := []*rapid.Generator[int]{rapid.IntRange(0, 60), rapid.IntRange(0, 400), rapid.IntRange(0, 3000)}
+	if multi {
+		offs = append(offs, rapid.IntRange(0, 25000))
+	}
+	c.KillUs = rapid.OneOf(offs...).Draw(rt, "killUs")
 	return c
 }
 
@@ -99,10 +104,10 @@ func c20CheckKill(t vh.Fataler, rec *vh.Rec, root string, c c20Case) {
 		switch {
 		case perr == nil && proto.Equal(got, cur):
 			if inFlight {
-				classes = append(classes, "observed:new")
+				classes = append(classes, "observed:new", classes[2]+":observed-new")
 			}
 		case perr == nil && inFlight && proto.Equal(got, prev):
-			classes = append(classes, "observed:previous")
+			classes = append(classes, "observed:previous", classes[2]+":observed-previous")
 		default:
 			form = c20Form(file, allowed...)
 			verdict = fmt.Sprintf("ClientConf after the kill (%d bytes, parse error: %v) %s", len(file), perr, c20Brief(got))
@@ -122,7 +127,7 @@ func c20CheckKill(t vh.Fataler, rec *vh.Rec, root string, c c20Case) {
 }
 
 func TestVerif_C20_kill(t *testing.T) {
-	rec := vh.NewRec("C20", "kill", "rapid draws a sequence of 1-30 stores (SetClientConf/SetDecoys/SetPubkey/SetGeneration/SetPhantomSubnets; content a function of the index; half of the cases contain 1-6 MiB configurations), a store index K and an offset 0-3000 µs; a re-executed child performs the stores on a fresh pre-seeded directory announcing start/done on a pipe and is SIGKILLed offset µs after announcing start K; afterwards the ClientConf file must parse and be proto.Equal to the model configuration of the last completed store or of the store in flight. Non-trivial = the kill landed between a start and its done (measured from the pipe); distinct = distinct (sequence, kill point)")
+	rec := vh.NewRec("C20", "kill", "rapid draws a sequence of 1-30 stores (SetClientConf/SetDecoys/SetPubkey/SetGeneration/SetPhantomSubnets; content a function of the index; half of the cases contain 1-6 MiB configurations), a store index K and an offset 0-3000 µs (0-25000 µs in multi-MiB cases, whose stores last 3-20 ms); a re-executed child performs the stores on a fresh pre-seeded directory announcing start/done on a pipe and is SIGKILLed offset µs after announcing start K; afterwards the ClientConf file must parse and be proto.Equal to the model configuration of the last completed store or of the store in flight. Non-trivial = the kill landed between a start and its done (measured from the pipe); distinct = distinct (sequence, kill point)")
 	defer rec.Flush()
 	rec.Require("kill-in-flight", "in-flight-multiMB", "in-flight-small")
 	root := t.TempDir()
